@@ -16,7 +16,7 @@ EPS = float(np.finfo(float).eps)
 KTOL = 100.0
 RULE = ("Stateful generation: operation sequences (<= 30 steps) over a real Model with n<=6, m<=6, target point count n+1..2n+1, "
         "base point magnitude up to 1e6, point spreads over 4 decades (down to 1e-4 relative to the base), preconditioning on/"
-        "off. Rules: add a point (growing from 2 points), replace point k, shift the base to xopt or by a drawn vector; after "
+        "off, no bounds or a box around the base point (base on a bound included; fed points are clipped into the box first). Rules: add a point (growing from 2 points), replace point k, shift the base to xopt or by a drawn vector; after "
         "every rule the model is re-fitted and judged. Data come from a hidden SINLIN function or from drawn residuals. "
         "Candidate points that would make the harness's own scaled design matrix worse conditioned than 1e6 are skipped "
         "(counted), so the point set stays affinely independent. Non-trivial = the sequence has >= 2 base shifts, or a shift "
@@ -51,7 +51,14 @@ def cases(draw):
         elif kind == "shiftv":
             op["v"] = [draw(sc.g8) / 4.0 for _ in range(n)]
         ops.append(op)
+    # bounds: none, or a box around the base point with sides 0 (base on the bound), 0.5, 3 or 30 spreads away (or absent);
+    # candidate points are clipped into the box before they are fed, so only in-bounds points are ever stored
+    box = None
+    if draw(st.integers(0, 2)) == 0:
+        box = {"lo": [draw(st.sampled_from([0.0, 0.5, 3.0, 30.0, None])) for _ in range(n)],
+               "up": [draw(st.sampled_from([0.5, 3.0, 30.0, None])) for _ in range(n)]}
     return {"n": n, "m": m, "npt": npt, "base": base, "spread": spread, "data": data, "precondition": draw(st.sampled_from([True, True, False])),
+            "box": box,
             "A": [[draw(sc.g8) for _ in range(n)] for _ in range(m)], "b": [draw(sc.g8) for _ in range(m)],
             "r0": [draw(sc.g8) for _ in range(m)], "ops": ops}
 
@@ -83,7 +90,14 @@ def _run(case):
             r = r + 0.5 * np.sin(np.sum(z) + np.arange(m))
         return r
 
-    mdl = Model(npt, base.copy(), f(base), -1e20 * np.ones(n), 1e20 * np.ones(n), [], 1, precondition=case["precondition"], do_logging=False)
+    xl, xu = -1e20 * np.ones(n), 1e20 * np.ones(n)
+    if case.get("box"):
+        for i in range(n):
+            if case["box"]["lo"][i] is not None:
+                xl[i] = base[i] - case["box"]["lo"][i] * spread
+            if case["box"]["up"][i] is not None:
+                xu[i] = base[i] + case["box"]["up"][i] * spread
+    mdl = Model(npt, base.copy(), f(base), xl.copy(), xu.copy(), [], 1, precondition=case["precondition"], do_logging=False)
     nev = 1
     flags = {"shifts": 0, "shift_then_replace": False, "steps": 0, "skipped": 0, "last_shift": False}
 
@@ -162,6 +176,7 @@ def _run(case):
             if not np.any(s):
                 s[0] = spread
             cand = (mdl.xopt() if op["from_xopt"] else np.zeros(n)) + s
+            cand = np.minimum(np.maximum(mdl.xbase + cand, xl), xu) - mdl.xbase        # keep the fed point inside the box
             k = cur if kind == "grow" else op["k"] % cur
             Y = np.array([mdl.xpt(j) for j in range(cur)])
             if kind == "grow":
@@ -218,6 +233,8 @@ def _run(case):
                 ok = check(step, "after-" + kind)
     res.classes.append("data:" + case["data"])
     res.classes.append("precondition" if case["precondition"] else "no-precondition")
+    if case.get("box"):
+        res.classes.append("bounded")
     if mdl.npt() > n + 1:
         res.classes.append("regression")
     if mdl.npt() < n + 1:
